@@ -1,4 +1,5 @@
 import J5V.Go.Outcome
+import J5V.Compile.Strcase
 import J5V.Rules.Types
 /-!
 # The writer: `internal/j5s/j5convert/fields.go` `buildField` / `buildProperty`
@@ -230,6 +231,12 @@ def buildField : Schema → Outcome ItemAnnot
 
 /-! ## buildProperty -/
 
+/-- `strcase.ToSnake(node.Schema.Name)`: the proto field name (strcase as modelled, byte level, by
+`J5V/Compile/Strcase.lean`; j5s names are ASCII identifiers) -/
+def snakeName (s : String) : String :=
+  J5V.Compile.Str.toString (J5V.Compile.toSnake (s.toList.map Char.toNat))
+
+
 def wrapArray (v : Option ItemC) (rules : Option ArrayRules) : Option FieldC :=
   if v.isSome || rules.isSome then
     some { required := none,
@@ -282,7 +289,7 @@ def writeField (p : Property) : Outcome Annot :=
     let required := p.required || (!p.schema.isMap && psmPrimaryKey a.psmKey)
     if p.explicitlyOptional && required then .err "cannot be both required and optional"
     else .ok {
-      jsonName := p.name, number := p.number, description := p.description,
+      jsonName := p.name, protoName := snakeName p.name, number := p.number, description := p.description,
       kind := a.kind, repeated := p.schema.isArray, isMap := p.schema.isMap,
       proto3Optional := p.explicitlyOptional,
       validate := fieldValidate p.schema a.validate required, j5 := fieldJ5 p.schema a.j5,
